@@ -567,6 +567,11 @@ HTPcreate(filerec_t *file_rec, /* IN: File record to store info in */
     if (HTIupdate_dd(file_rec, dd_ptr) == FAIL)
         HGOTO_ERROR(DFE_INTERNAL, FAIL);
 
+    /* Keep the highest ref in use current, so that Hnewref() never hands out
+       a ref created here (e.g. by Hdupdd) */
+    if (ref > file_rec->maxref)
+        file_rec->maxref = ref;
+
     /* Get the atom to return */
     if ((ret_value = HAregister_atom(DDGROUP, dd_ptr)) == FAIL)
         HGOTO_ERROR(DFE_INTERNAL, FAIL);
